@@ -380,8 +380,16 @@ func rtCases(args []string) {
 				reps = 6
 			}
 		}
+		// types whose tags name other members are in the Inverse domain with tag-keyed data only
+		tagsOnly := c.Top != "" && kinds[c.Top].tagsOnly
+		for _, f := range c.F {
+			tagsOnly = tagsOnly || kinds[f.K].tagsOnly
+		}
 		var res [][]byte
 		for _, api := range rtAPIs {
+			if tagsOnly && api.mode != "tags" {
+				continue
+			}
 			for k := 0; k < reps; k++ {
 				rv, err := buildValue(&c) // fresh value per run: nothing is shared between runs
 				if err != nil {
